@@ -7,6 +7,74 @@ from . import modelcase, resid
 from .modelcase import qf, _cmp
 
 
+def _check_half(rec, half, e, req, backend, ru, workdir, ctx, stats, bad):
+    """One generated module of one half (with or without removal of unused variables)."""
+    try:
+        mod = modelcase.make_mod(backend, half, ["explicit_euler"], workdir=workdir, missing_values=req, remove_unused=ru)
+    except Exception as ex:  # noqa: BLE001
+        bad.append({"tag": "generate", "exception": type(ex).__name__, "message": str(ex)[:300], **ctx})
+        return
+    try:
+        snames = [s.name for s in half.states]
+        pnames = [p.name for p in half.parameters]
+        mnames = dict(half.missing_variables)
+        if mnames and hasattr(mod, "ns"):
+            mi = mod.ns.get("missing")
+            if mi != mnames:
+                bad.append({"tag": "missing-index", "module": mi, "ode": mnames, **ctx})
+        for c in rec["cases"]:
+            inp, den = c["input"], c["den"]
+            s = [0.0] * len(snames)
+            p = [0.0] * len(pnames)
+            for n in snames:
+                s[mod.index("state", n)] = qf(inp["states"][n])
+            for n in pnames:
+                p[mod.index("parameter", n)] = qf(inp["params"][n])
+            missing = None
+            if mnames:
+                missing = [0.0] * len(mnames)
+                ok = True
+                for n, i in mnames.items():
+                    v = den[n]
+                    try:
+                        missing[i] = float(resid.value(v)[0])
+                    except Exception:  # noqa: BLE001
+                        ok = False
+                if not ok:
+                    stats["undefined"] += 1
+                    continue
+            t, dt = qf(inp["t"]), qf(inp["dt"])
+            cctx = {**ctx, "t": t}
+            for fn, dtv, kind, names, key in (("rhs", None, "state", snames, "d"), ("monitor_values", None, "monitor", sorted(e["assigns"]), "m"),
+                                              ("explicit_euler", dt, "state", snames, "e")):
+                try:
+                    vals, _ = mod.call(fn, t, s, p, dtv, missing=missing)
+                except Exception as ex:  # noqa: BLE001
+                    bad.append({"tag": fn, "exception": type(ex).__name__, "message": str(ex)[:300], **cctx})
+                    continue
+                stats["calls"] += 1
+                if len(vals) != len(names):
+                    bad.append({"tag": "lengths", "fn": fn, "got_len": len(vals), "want_len": len(names), **cctx})
+                    continue
+                for n in names:
+                    want = den[f"d{n}_dt"] if key == "d" else (den[n] if key == "m" else c["euler"][n])
+                    _cmp(bad, stats, fn, n, vals[mod.index(kind, n)], want, {**cctx, "fn": fn})
+            if req:
+                try:
+                    vals, _ = mod.call("missing_values", t, s, p, None, missing=missing)
+                except Exception as ex:  # noqa: BLE001
+                    bad.append({"tag": "missing_values", "exception": type(ex).__name__, "message": str(ex)[:300], **cctx})
+                    continue
+                stats["calls"] += 1
+                if len(vals) != len(req):
+                    bad.append({"tag": "lengths", "fn": "missing_values", "got_len": len(vals), "want_len": len(req), **cctx})
+                    continue
+                for n, i in req.items():
+                    _cmp(bad, stats, "missing_values", n, vals[i], den[n], {**cctx, "fn": "missing_values"})
+    finally:
+        mod.close()
+
+
 def check_split_case(rec, backend="numpy", workdir=None):
     from . import gx
 
@@ -34,70 +102,8 @@ def check_split_case(rec, backend="numpy", workdir=None):
             if {s.name for s in half.states} != set(e["states"]):
                 bad.append({"tag": "states-partition", "got": sorted(s.name for s in half.states), "want": sorted(e["states"]), **ctx})
             req = dict(other.missing_variables) or None
-            try:
-                mod = modelcase.make_mod(backend, half, ["explicit_euler"], workdir=workdir, missing_values=req)
-            except Exception as ex:  # noqa: BLE001
-                bad.append({"tag": "generate", "exception": type(ex).__name__, "message": str(ex)[:300], **ctx})
-                continue
-            try:
-                snames = [s.name for s in half.states]
-                pnames = [p.name for p in half.parameters]
-                mnames = dict(half.missing_variables)
-                if mnames and hasattr(mod, "ns"):
-                    mi = mod.ns.get("missing")
-                    if mi != mnames:
-                        bad.append({"tag": "missing-index", "module": mi, "ode": mnames, **ctx})
-                for c in rec["cases"]:
-                    inp, den = c["input"], c["den"]
-                    s = [0.0] * len(snames)
-                    p = [0.0] * len(pnames)
-                    for n in snames:
-                        s[mod.index("state", n)] = qf(inp["states"][n])
-                    for n in pnames:
-                        p[mod.index("parameter", n)] = qf(inp["params"][n])
-                    missing = None
-                    if mnames:
-                        missing = [0.0] * len(mnames)
-                        ok = True
-                        for n, i in mnames.items():
-                            v = den[n]
-                            try:
-                                missing[i] = float(resid.value(v)[0])
-                            except Exception:  # noqa: BLE001
-                                ok = False
-                        if not ok:
-                            stats["undefined"] += 1
-                            continue
-                    t, dt = qf(inp["t"]), qf(inp["dt"])
-                    cctx = {**ctx, "t": t}
-                    for fn, dtv, kind, names, key in (("rhs", None, "state", snames, "d"), ("monitor_values", None, "monitor", sorted(e["assigns"]), "m"),
-                                                      ("explicit_euler", dt, "state", snames, "e")):
-                        try:
-                            vals, _ = mod.call(fn, t, s, p, dtv, missing=missing)
-                        except Exception as ex:  # noqa: BLE001
-                            bad.append({"tag": fn, "exception": type(ex).__name__, "message": str(ex)[:300], **cctx})
-                            continue
-                        stats["calls"] += 1
-                        if len(vals) != len(names):
-                            bad.append({"tag": "lengths", "fn": fn, "got_len": len(vals), "want_len": len(names), **cctx})
-                            continue
-                        for n in names:
-                            want = den[f"d{n}_dt"] if key == "d" else (den[n] if key == "m" else c["euler"][n])
-                            _cmp(bad, stats, fn, n, vals[mod.index(kind, n)], want, {**cctx, "fn": fn})
-                    if req:
-                        try:
-                            vals, _ = mod.call("missing_values", t, s, p, None, missing=missing)
-                        except Exception as ex:  # noqa: BLE001
-                            bad.append({"tag": "missing_values", "exception": type(ex).__name__, "message": str(ex)[:300], **cctx})
-                            continue
-                        stats["calls"] += 1
-                        if len(vals) != len(req):
-                            bad.append({"tag": "lengths", "fn": "missing_values", "got_len": len(vals), "want_len": len(req), **cctx})
-                            continue
-                        for n, i in req.items():
-                            _cmp(bad, stats, "missing_values", n, vals[i], den[n], {**cctx, "fn": "missing_values"})
-            finally:
-                mod.close()
+            for ru in (False, True):
+                _check_half(rec, half, e, req, backend, ru, workdir, {**ctx, "remove_unused": ru}, stats, bad)
     return stats, bad
 
 
